@@ -23,17 +23,21 @@ def _machine(prop):
 
 
 def vkey(v: dict) -> tuple:
-    return (v["invariant"], v["cls"], v["symptom"], v["op_kind"].split(":")[0], v.get("site", ""))
+    return (v["invariant"], v["cls"], v["symptom"], v["op_kind"].split(":")[0], v.get("site", ""), v.get("tags", ""))
 
 
 def _eval(args):
     prop, cfg, cap = args
     import warnings
     warnings.filterwarnings("ignore")
-    signal.signal(signal.SIGALRM, lambda *a: (_ for _ in ()).throw(TimeoutError()))
+    from .oracle import RunTimeout
+    signal.signal(signal.SIGALRM, lambda *a: (_ for _ in ()).throw(RunTimeout()))
     signal.alarm(cap)
     try:
-        res = _machine(prop).execute(cfg)
+        import contextlib
+        import io
+        with contextlib.redirect_stdout(io.StringIO()):
+            res = _machine(prop).execute(cfg)
         if res.violations:
             return res.violations[0].to_json(), res.decision_digest()
         return None, None
@@ -141,6 +145,15 @@ def replay(path: str) -> tuple[dict | None, dict]:
     res = _machine(rec["property"]).execute(rec["config"])
     got = res.violations[0].to_json() if res.violations else None
     return got, rec
+
+
+def replay_quiet(path: str):
+    import contextlib
+    import io
+    import warnings
+    warnings.filterwarnings("ignore")
+    with contextlib.redirect_stdout(io.StringIO()):
+        return replay(path)
 
 
 def verify_replay(path: str) -> bool:
